@@ -907,7 +907,7 @@ class RealRejecting:
       def sleep(p):
         d.before("time", "sleep")
     ao.time = FakeTime
-    for i in range(cap):
+    for i in range(info.get("existing", cap)):
       obj.post_fifo(ev.Event(signal="W_OLD%d" % i), period=5, times=0, deferred=True)     # thread stand-ins: never run
     self.old_flags = [r.task_run_event for r in obj.posted_events_queue]
     self.new_flags = []
